@@ -2,6 +2,7 @@ package checks
 
 import (
 	"github.com/enbility/spine-go/internal/verifh/engine"
+	"github.com/enbility/spine-go/spine"
 )
 
 // C08 — subscriptions: exact registry and exactly-once notification fan-out.
@@ -52,6 +53,16 @@ func c08Alphabet(thorough bool) []string {
 	return a
 }
 
+// the registry world of the step that just ran (one step per execution, executions of a worker run one after another)
+var c08LastWorld *regWorld
+
+func c08RegistryIds() string {
+	if c08LastWorld == nil {
+		return ""
+	}
+	return spine.VerifRegistryIds(c08LastWorld.w.L)
+}
+
 func c08Drivers(thorough bool) []*engine.HDriver {
 	// a local server feature of type Generic fits every requested type; the client has to fit the REQUESTED type
 	gen := []string{"sub:A:e1f1:L1gen:lc:d", "sub:B:e1f3:L1gen:ms:d", "sub:A:e1f3:L1gen:lc:d", "sub:A:e1f1:L1gen:gen:d", "sub:B:e1f4:L1gen:lc:d",
@@ -62,7 +73,17 @@ func c08Drivers(thorough bool) []*engine.HDriver {
 	// a local entity is removed and a new object added under its address: nobody is subscribed to the new features
 	// until it subscribes again, and a data change then notifies each subscriber once
 	repl := []string{"sub:A:e1f1:L2lc:lc:d", "sub:B:e1f1:L2lc:lc:d", "sub:A:e1f1:L1lc:lc:d", "unsub:A:e1f1:L2lc:d", "lrepl:2", "set:L2lc:2", "set:L2lc:1", "set:L1lc:2"}
-	return []*engine.HDriver{regDriver("subscriptions", c08Alphabet(thorough), true, false, nil), regDriver("subscriptions-generic-server-feature", gen, true, false, nil),
+	// how ids are handed out may depend on the ids in use (not only on their order): a depth-bounded driver whose state
+	// key holds the absolute ids in registry order
+	idsD := regDriver("subscription-ids", []string{"sub:A:e1f1:L1lc:lc:d", "sub:A:e1f1:L2lc:lc:d", "sub:A:e2f1:L1lc:lc:d", "sub:B:e1f1:L1lc:lc:d",
+		"unsub:A:e1f1:L1lc:d", "unsub:A:e1f1:L2lc:d", "unsub:B:e1f1:L1lc:d", "sub:A:e1f9:L1lc:lc:d"}, true, false, nil)
+	idStep := idsD.Step
+	idsD.Step = func(hist []string, op string) engine.HStep {
+		st := idStep(hist, op)
+		st.Key += " " + c08RegistryIds()
+		return st
+	}
+	return []*engine.HDriver{idsD, regDriver("subscriptions", c08Alphabet(thorough), true, false, nil), regDriver("subscriptions-generic-server-feature", gen, true, false, nil),
 		regDriver("subscriptions-node-management", nm, true, false, nil), regDriver("subscriptions-local-entity-replaced", repl, true, false, nil)}
 }
 
@@ -97,6 +118,12 @@ func init() {
 			rep := &engine.Report{Level: "model_checking", Coverage: map[string]any{"exhaustive": true}}
 			for _, d := range c08Drivers(c.Thorough) {
 				depth := 64
+				if d.Name == "subscription-ids" {
+					depth = 6
+					if c.Thorough {
+						depth = 8
+					}
+				}
 				st := engine.RunHistories(c, d, depth, rep)
 				engine.AddHCoverage(rep, d.Name, st, len(d.Alphabet))
 				rep.Coverage["closure_reached"] = st.Closure
